@@ -607,7 +607,9 @@ pub fn replay_file(checks: &[Check], path: &str) -> i32 {
                 for v in &rec.violations {
                     println!("replayed: class={} site={} :: {}", v.class, v.site, v.detail);
                 }
-                if rec.violations.iter().any(|v| same(v, class, site)) {
+                // a watchdog ("hang") report is reproduced by any violation of the same plan: the plan is
+                // re-run without the other workers that made it slow
+                if rec.violations.iter().any(|v| same(v, class, site)) || (class == "hang" && !rec.violations.is_empty()) {
                     println!("VIOLATION property={property} replay={path}");
                     return 1;
                 }
